@@ -1307,6 +1307,60 @@ def effective_style(m: Model, table: Dict[str, Any], kind: str) -> Any:
     return "keep"
 
 
+def _unroll_enum_iteration(fn: ast.FunctionDef, cls_node: ast.ClassDef) -> ast.FunctionDef:
+    """`for X in cls: BODY` in a classmethod of an Enum class, written out member by member in
+    definition order, with `X.name` the member's identifier and X the member (`cls.M`).  Only when
+    BODY does not store X and has no break / continue."""
+    import copy
+
+    from .core import link_parents
+
+    members = [t.id for st in cls_node.body if isinstance(st, ast.Assign) for t in st.targets if isinstance(t, ast.Name) and t.id.isupper()]
+    cls_param = fn.args.args[0].arg if fn.args.args else "cls"
+    new_fn = copy.deepcopy(fn)
+    changed = False
+
+    def visit(block: List[ast.stmt]) -> List[ast.stmt]:
+        nonlocal changed
+        out: List[ast.stmt] = []
+        for st in block:
+            for field in ("body", "orelse", "finalbody"):
+                sub = getattr(st, field, None)
+                if isinstance(sub, list) and sub and isinstance(sub[0], ast.stmt):
+                    setattr(st, field, visit(sub))
+            if isinstance(st, ast.For) and isinstance(st.target, ast.Name) and isinstance(st.iter, ast.Name) and st.iter.id in (cls_param, cls_node.name) and not st.orelse and members and not any(isinstance(x, (ast.Break, ast.Continue)) for b in st.body for x in ast.walk(b)) and not any(isinstance(x, ast.Name) and x.id == st.target.id and isinstance(x.ctx, ast.Store) for b in st.body for x in ast.walk(b)):
+                var = st.target.id
+                for mname in members:
+                    class T(ast.NodeTransformer):
+                        def visit_Attribute(self, n: ast.Attribute) -> Any:
+                            if isinstance(n.value, ast.Name) and n.value.id == var and n.attr == "name":
+                                return ast.copy_location(ast.Constant(value=mname), n)
+                            return self.generic_visit(n)
+
+                        def visit_Name(self, n: ast.Name) -> Any:
+                            if n.id == var and isinstance(n.ctx, ast.Load):
+                                return ast.copy_location(ast.Attribute(value=ast.Name(id=st.iter.id, ctx=ast.Load()), attr=mname, ctx=ast.Load()), n)
+                            return n
+
+                    for b in st.body:
+                        nb = T().visit(copy.deepcopy(b))
+                        ast.fix_missing_locations(nb)
+                        out.append(nb)
+                changed = True
+                continue
+            out.append(st)
+        return out
+
+    new_fn.body = visit(new_fn.body)
+    if not changed:
+        return fn
+    link_parents(new_fn)
+    par = getattr(fn, "_parent", None)
+    if par is not None:
+        new_fn._parent = par  # type: ignore[attr-defined]
+    return new_fn
+
+
 @rule("C5", "case-style tables keep style-guide names (except where the scheme fixes a transformation); name templates follow the documented scheme")
 def c5(repo: Repo) -> RuleResult:
     res = RuleResult("C5", floor=25)
@@ -1345,8 +1399,8 @@ def c5(repo: Repo) -> RuleResult:
         want = {"snake": "snake_case", "upper": "upper_case", "pascal": "pascal_case", "keep": "keep_case", "no-such-style": "keep_case"}
         resolved: Dict[str, Any] = {}
         try:
-            fl = compiler_flow(repo, "CaseStyle", "renderer/formatter.py")
-            fn_from, fn_conv = cs.methods["from_name"].node, cs.methods["converter"].node
+            fl = compiler_flow(repo, "CaseStyle", "renderer/formatter.py", module_funcs=True)
+            fn_from, fn_conv = _unroll_enum_iteration(cs.methods["from_name"].node, cs.node), cs.methods["converter"].node
             pn = [a.arg for a in fn_from.args.args]
             for nme in want:
                 members = sorted({show(p_.ret) for p_ in fl.run(fn_from, {pn[0]: V("cls"), pn[1]: STR(nme)}) if p_.done == "return" and p_.ret is not None})
